@@ -7,17 +7,17 @@ import (
 )
 
 type vpRT struct {
-	P   *int32         `nbt:"p,omitempty"`
-	Q   *string        `nbt:"q,omitempty"`
-	A   any            `nbt:"a,omitempty"`
-	M   map[string]int16 `nbt:"m"`
-	In  *vpInner       `nbt:"in,omitempty"`
-	S   []string       `nbt:"s"`
-	B   []bool         `nbt:"b"`
-	I8  []int8         `nbt:"i8"`
-	Raw RawMessage     `nbt:"raw"`
-	Raws []RawMessage  `nbt:"raws"`
-	F   float64        `nbt:"f"`
+	P    *int32           `nbt:"p,omitempty"`
+	Q    *string          `nbt:"q,omitempty"`
+	A    any              `nbt:"a,omitempty"`
+	M    map[string]int16 `nbt:"m"`
+	In   *vpInner         `nbt:"in,omitempty"`
+	S    []string         `nbt:"s"`
+	B    []bool           `nbt:"b"`
+	I8   []int8           `nbt:"i8"`
+	Raw  RawMessage       `nbt:"raw"`
+	Raws []RawMessage     `nbt:"raws"`
+	F    float64          `nbt:"f"`
 	vpEmb
 }
 
